@@ -80,3 +80,60 @@ pub fn mode_strategy(enum_cap: u64, iters: usize) -> impl proptest::strategy::St
         1 => (any::<u64>(), 1usize..=3).prop_map(move |(seed, depth)| Mode::Pct { seed, depth, iters }),
     ]
 }
+
+/// Like `explore`, but a failing execution is handed to `judge`: Ok = legitimate outcome of the program
+/// (exploration continues where possible), Err = violation (exploration stops).
+pub fn explore_judged(body: Arc<dyn Fn() + Send + Sync + 'static>, mode: &Mode, step_bound: usize, max_failing: u64, mut judge: impl FnMut(&str) -> Result<(), String>) -> Explored {
+    match mode {
+        Mode::Enum { cap } => {
+            let cfg = || quiet_config(MaxSteps::FailAfter(step_bound));
+            let st = EnumScheduler::fresh_state();
+            let mut failing = 0u64;
+            let mut out = Explored::default();
+            loop {
+                let before = st.lock().unwrap().executions;
+                if before >= *cap {
+                    break;
+                }
+                let sched = EnumScheduler::new(st.clone(), *cap - before);
+                let b = body.clone();
+                let r = catch_unwind(AssertUnwindSafe(|| Runner::new(sched, cfg()).run(move || b())));
+                let mut s = st.lock().unwrap();
+                s.snapshot_if_needed();
+                out.executions = s.executions;
+                if let Some(nd) = &s.nondeterminism {
+                    out.failure = Some((format!("nondeterministic program under enumeration: {nd}"), vec![]));
+                    break;
+                }
+                if let Err(p) = r {
+                    let m = payload_str(&*p);
+                    if let Err(v) = judge(&m) {
+                        out.failure = Some((v, s.paths.last().cloned().unwrap_or_default()));
+                        break;
+                    }
+                    failing += 1;
+                    if failing > max_failing {
+                        break;
+                    }
+                }
+                if s.done {
+                    out.complete = true;
+                    break;
+                }
+                if s.executions == before {
+                    break;
+                }
+            }
+            out
+        }
+        _ => {
+            let mut ex = explore(body, mode, step_bound);
+            if let Some((m, p)) = ex.failure.take() {
+                if let Err(v) = judge(&m) {
+                    ex.failure = Some((v, p));
+                }
+            }
+            ex
+        }
+    }
+}
